@@ -71,6 +71,10 @@ def main():
             violations.append({"kind": "theorem", "what": f"coq/Props/{prop}.v no longer compiles",
                                "detail": rep["output"]})
         ctx = {"prop": prop, "tier": tier, "seed": seed, "build": d, "replay": args.replay}
+        if args.replay:
+            from . import replay as _replay
+
+            sys.exit(_replay.run(ctx, args.replay))
         res = mod.run(ctx)
         obligations = n_thm + res.get("instance_obligations", 0)
         discharged = (n_thm if rep["ok"] else 0) + res.get("instance_discharged", 0)
